@@ -32,7 +32,7 @@ const (
 	obSpec   = "cross-check: Lean Spec.refStatus = Go RefStatus on the abstracted request"
 	keyF19a  = "F-19a-marshal-fallback-not-a-document"
 	keyF19b  = "F-19b-relationship-route-without-get-404"
-	ruleText = "cases = (generated resource schema, request); requests: method(10) × path depth 0..6 (known/unknown type, ids incl. empty/unicode/'relationships', relationship/attribute/unknown names) × 25 Accept variants × 55 query-key variants × 24 body families (matching/conflicting/undecodable) ; per schema a method×route grid and an Accept×query grid are enumerated, the rest is random. distinct = distinct (schema, abstract request); non-trivial = negotiation and the parameter check pass and the path's first component is a defined type at depth 1..4 (the request reaches the routing tree)"
+	ruleText = "cases = (generated resource schema, request); requests: method(10) × path depth 0..6 (known/unknown type, ids incl. empty/unicode/'relationships', relationship/attribute/unknown names) × 25 Accept variants × 61 query-key variants × 24 body families (matching/conflicting/undecodable) ; per schema a method×route grid and an Accept×query grid are enumerated, the rest is random. distinct = distinct (schema, abstract request); non-trivial = negotiation and the parameter check pass and the path's first component is a defined type at depth 1..4 (the request reaches the routing tree)"
 )
 
 type harness struct {
